@@ -1,7 +1,10 @@
 use std::cell::UnsafeCell;
 use std::mem::MaybeUninit;
 use std::ops::Deref;
+#[cfg(not(rustrtc_verif))]
 use std::sync::atomic::{AtomicUsize, Ordering};
+#[cfg(rustrtc_verif)]
+use crate::verif_hooks::sync::{AtomicUsize, Ordering};
 
 /// Pad a value to fill a full cache line (64 bytes on x86_64/aarch64).
 ///
